@@ -393,7 +393,7 @@ fn show_parse_error(e: &ParseError) -> String {
         NestedTypeCoercion(_) => "NestedTypeCoercion".into(),
         TypeCoercionWithSiblingFields(_) => "TypeCoercionWithSiblingFields".into(),
         UnsupportedDuplicatedDirective(d, _) => format!("UnsupportedDuplicatedDirective {}", hex(d)),
-        DuplicatedEdgeParameter(p, e, _) => format!("DuplicatedEdgeParameter {} {}", hex(p), hex(e)),
+        DuplicatedEdgeParameter(p, e, _) => format!("DuplicatedEdgeParam {} {}", hex(p), hex(e)),
         VariableDefinitionInQuery(_) => "VariableDefinitionInQuery".into(),
         OtherError(m, _) => format!("OtherError {}", hex(m)),
         _ => "?".into(),
@@ -1050,9 +1050,9 @@ fn show_front_error(e: &FrontendError) -> String {
         UnsupportedEdgeFilter(x) => format!("UnsupportedEdgeFilter {}", hex(x)),
         UnsupportedEdgeTag(x) => format!("UnsupportedEdgeTag {}", hex(x)),
         UnsupportedDirectiveOnFoldedEdge(x, d) => format!("UnsupportedDirectiveOnFoldedEdge {} {}", hex(x), hex(d)),
-        MissingRequiredEdgeParameter(p, x) => format!("MissingRequiredEdgeParameter {} {}", hex(p), hex(x)),
-        UnexpectedEdgeParameter(p, x) => format!("UnexpectedEdgeParameter {} {}", hex(p), hex(x)),
-        InvalidEdgeParameterType(p, x, t, v) => format!("InvalidEdgeParameterType {} {} {} {}", hex(p), hex(x), hex(t), show_fv(v)),
+        MissingRequiredEdgeParameter(p, x) => format!("MissingRequiredEdgeParam {} {}", hex(p), hex(x)),
+        UnexpectedEdgeParameter(p, x) => format!("UnexpectedEdgeParam {} {}", hex(p), hex(x)),
+        InvalidEdgeParameterType(p, x, t, v) => format!("InvalidEdgeParamType {} {} {} {}", hex(p), hex(x), hex(t), show_fv(v)),
         RecursingNonRecursableEdge(x, a, b) => format!("RecursingNonRecursableEdge {} {} {}", hex(x), hex(a), hex(b)),
         RecursionToSubtype(x, a, b) => format!("RecursionToSubtype {} {} {}", hex(x), hex(a), hex(b)),
         AmbiguousOriginEdgeRecursion(x) => format!("AmbiguousOriginEdgeRecursion {}", hex(x)),
